@@ -73,5 +73,6 @@ with mraw := MRaw (name op dom : string) (inputs outputs : list string) (rattrs 
 with mrawgraph := MRawGraph (rinputs rinits : list string) (rbody : list mraw) (routputs : list string).
 
 Record mfunction := { f_domain : string; f_name : string; f_inputs : list string; f_outputs : list string;
-                      f_attrs : list string; f_body : list mnode; f_imports : list (string * nat) }.
+                      f_attrs : list string; f_body : list mnode; f_imports : list (string * nat);
+                      f_bodyid : nat  (* ghost: id of the body graph in the program; not rendered *) }.
 Record model := { mmain : mgraph; mimports : list (string * nat); mfunctions : list mfunction }.
